@@ -1192,7 +1192,12 @@ fn gen_attr(g: &mut G, u: usize, version: u16, asz: u8, fmt64: bool, used: &mut 
             let k = 1 + rng.below(4) as usize;
             let mut ops = simple_ops(rng, k);
             if n == 0x4d && rng.chance(1, 2) {
-                ops = vec![0x30];
+                // vtable slots: a lone DW_OP_constu is copied verbatim, anything else is converted
+                ops = match rng.below(3) {
+                    0 => vec![0x30],
+                    1 => vec![0x10, rng.below(128) as u8],
+                    _ => vec![0x10, 0x81, 0x01],
+                };
             }
             (n, format!("{} {}", rng.pick(&["exprloc", "block1", "block"]), hex(&ops)))
         }
